@@ -313,35 +313,38 @@ pub fn run(ctx: &Ctx, which: &str) -> ! {
 fn malformed_systems() -> Vec<PairSpec> {
     let mut out = Vec::new();
     for wf in [false, true] {
-        let cur0 = if wf { Exp::HashOf(C0.to_vec()) } else { Exp::Absent };
-        let mk = |f: &dyn Fn(&mut Op)| {
-            let mut p = put("f", cur0.clone(), X);
-            f(&mut p);
-            p
-        };
-        let bad_hash = mk(&|p| {
-            if let Op::Put { declared_hash, .. } = p {
-                *declared_hash = Some(h(b"something else"));
+        // the malformed write carries either the CURRENT hash as `expected` or a STALE one
+        for stale in [false, true] {
+            let cur0 = if stale { Exp::HashOf(b"stale-other-bytes".to_vec()) } else if wf { Exp::HashOf(C0.to_vec()) } else { Exp::Absent };
+            let mk = |f: &dyn Fn(&mut Op)| {
+                let mut p = put("f", cur0.clone(), X);
+                f(&mut p);
+                p
+            };
+            let bad_hash = mk(&|p| {
+                if let Op::Put { declared_hash, .. } = p {
+                    *declared_hash = Some(h(b"something else"));
+                }
+            });
+            let short_content = mk(&|p| {
+                if let Op::Put { declared_len, .. } = p {
+                    *declared_len = Some(10);
+                }
+            });
+            let excess = mk(&|p| {
+                if let Op::Put { extra_bytes, .. } = p {
+                    *extra_bytes = b"TRAILING".to_vec();
+                }
+            });
+            let zero_len = mk(&|p| {
+                if let Op::Put { declared_len, declared_hash, .. } = p {
+                    *declared_len = Some(0);
+                    *declared_hash = Some(h(b""));
+                }
+            });
+            for (n, bad) in [("bad-hash", bad_hash), ("short-content", short_content), ("excess-length", excess), ("zero-len-with-bytes", zero_len)] {
+                out.push(PairSpec { name: format!("malformed {n}{} || Get,List on {}", if stale { " (stale expected)" } else { "" }, if wf { "{f:c0}" } else { "{}" }), sys: System { init: init_tree(wf), programs: vec![vec![bad], vec![Op::Get { path: "f".into() }, Op::List]], external: vec![] } });
             }
-        });
-        let short_content = mk(&|p| {
-            if let Op::Put { declared_len, .. } = p {
-                *declared_len = Some(10);
-            }
-        });
-        let excess = mk(&|p| {
-            if let Op::Put { extra_bytes, .. } = p {
-                *extra_bytes = b"TRAILING".to_vec();
-            }
-        });
-        let zero_len = mk(&|p| {
-            if let Op::Put { declared_len, declared_hash, .. } = p {
-                *declared_len = Some(0);
-                *declared_hash = Some(h(b""));
-            }
-        });
-        for (n, bad) in [("bad-hash", bad_hash), ("short-content", short_content), ("excess-length", excess), ("zero-len-with-bytes", zero_len)] {
-            out.push(PairSpec { name: format!("malformed {n} || Get,List on {}", if wf { "{f:c0}" } else { "{}" }), sys: System { init: init_tree(wf), programs: vec![vec![bad], vec![Op::Get { path: "f".into() }, Op::List]], external: vec![] } });
         }
     }
     out
